@@ -306,13 +306,16 @@ type gateway struct {
 	lister  proxylisters.UpstreamClusterLister
 	ctl     *controllers.UpstreamClusterController
 	plugin  admission.ValidationInterface
+	fplugin admission.ValidationInterface // same real plugin over an EMPTY store: field validation only
 }
 
 func newGateway() *gateway {
 	idx := cache.NewIndexer(cache.MetaNamespaceKeyFunc, cache.Indexers{cache.NamespaceIndex: cache.MetaNamespaceIndexFunc})
 	l := proxylisters.NewUpstreamClusterLister(idx)
 	return &gateway{indexer: idx, lister: l, ctl: controllers.VerifNewUpstreamClusterController(l),
-		plugin: upstreamclusteradmission.VerifNewPlugin(l)}
+		plugin: upstreamclusteradmission.VerifNewPlugin(l),
+		fplugin: upstreamclusteradmission.VerifNewPlugin(proxylisters.NewUpstreamClusterLister(
+			cache.NewIndexer(cache.MetaNamespaceKeyFunc, cache.Indexers{cache.NamespaceIndex: cache.MetaNamespaceIndexFunc})))}
 }
 
 func (g *gateway) stop() { g.ctl.DeleteAll() }
@@ -325,6 +328,13 @@ func (g *gateway) admit(obj *proxyv1alpha1.UpstreamCluster) bool {
 	attrs := admission.NewAttributesRecord(obj, nil, proxyv1alpha1.SchemeGroupVersion.WithKind("UpstreamCluster"), "", obj.Name,
 		proxyv1alpha1.SchemeGroupVersion.WithResource("upstreamclusters"), "", op, &metav1.CreateOptions{}, false, nil)
 	return g.plugin.Validate(context.TODO(), attrs, nil) == nil
+}
+
+// fieldValid: the verdict of the real admission plugin when no other object is stored
+func (g *gateway) fieldValid(obj *proxyv1alpha1.UpstreamCluster) bool {
+	attrs := admission.NewAttributesRecord(obj, nil, proxyv1alpha1.SchemeGroupVersion.WithKind("UpstreamCluster"), "", obj.Name,
+		proxyv1alpha1.SchemeGroupVersion.WithResource("upstreamclusters"), "", admission.Create, &metav1.CreateOptions{}, false, nil)
+	return g.fplugin.Validate(context.TODO(), attrs, nil) == nil
 }
 
 func (g *gateway) deliver(obj *proxyv1alpha1.UpstreamCluster) string {
@@ -537,6 +547,7 @@ type xObs struct {
 
 type stepObs struct {
 	Valid     bool      `json:"valid"`     // apply: the real admission plugin accepted the object
+	FValid    bool      `json:"fvalid"`    // apply: it would accept the object if nothing else were stored
 	Delivered bool      `json:"delivered"` // an event reached syncUpstreamCluster
 	Res       string    `json:"res"`       // ok | requeue | err | none
 	Hosts     []hostObs `json:"hosts"`
@@ -565,6 +576,7 @@ func runHistory(raw json.RawMessage) interface{} {
 		case "apply":
 			obj := buildObj(op.Obj)
 			st.Valid = g.admit(obj)
+			st.FValid = g.fieldValid(obj)
 			if st.Valid || op.Force {
 				must(g.indexer.Add(obj))
 				delivered[i] = obj
